@@ -49,6 +49,8 @@ def plan(tier, seed):
                 from ..common import net_sizes
                 dev = 2 if (tier == "thorough" and net_sizes(kind, arch)[0] <= 8) else 1
                 items.append(dict(kind=kind, arch=arch, q=q, part=part, dev=dev))
+    for kind, arch in (("positive", [2, 3]), ("complex", [3, 2]), ("mixed", [2, 2, 2]), ("mixed", [3, 1, 3])):
+        items.append(dict(kind=kind, arch=arch, scope="stateful"))
     return items
 
 
@@ -76,11 +78,13 @@ def operators(n):
 _OPS = {}
 
 
-def check_case(acc, kind, arch, params):
+def check_case(acc, kind, arch, params, st=None, history=None):
     case = dict(kind=kind, arch=arch, params=params)
+    if history is not None:
+        case["history"] = history
     L = lib()
     O = L.observables
-    st = build_state(kind, arch, params)
+    st = build_state(kind, arch, params) if st is None else st
     n = arch[0]
     D = 2 ** n
     space = tbits(n)
@@ -140,9 +144,30 @@ def check_case(acc, kind, arch, params):
         bad(f"observable:raised:{e.kind}", e.tb)
 
 
+def run_stateful(acc, kind, arch):
+    from ..common import update_params, UPDATE_STYLES
+    from .c05 import stateful_sequence
+    seq = stateful_sequence(kind, arch)
+    st = build_state(kind, arch, seq[0])
+    check_case(acc, kind, arch, seq[0], st=st, history=[])
+    hist = []
+    for i, style in enumerate(UPDATE_STYLES):
+        hist = hist + [dict(update=style, to_pattern=i + 1)]
+        update_params(st, seq[i + 1], style)
+        check_case(acc, kind, arch, seq[i + 1], st=st, history=hist)
+
+
 def run_item(item):
     acc = Acc()
     kind, arch = item["kind"], item["arch"]
+    if item.get("scope") == "stateful":
+        run_stateful(acc, kind, arch)
+        acc.sample(dict(kind=kind, arch=arch, scope="stateful"), cap=1)
+        acc.states = acc.evaluations
+        acc.transitions = acc.counters.get("applies", 0) * (2 + 2 ** arch[0])
+        acc.traces = acc.counters.get("applies", 0)
+        acc.evaluations = max(acc.evaluations, acc.traces)
+        return acc
     first = True
     for i, (tag, params) in enumerate(param_assignments(kind, arch, npat=1, dev=item.get("dev", 1), q0=item["q"])):
         if i % 2 != item["part"]:
@@ -160,5 +185,8 @@ def run_item(item):
 
 def replay(case):
     acc = Acc()
+    if case.get("history"):
+        run_stateful(acc, case["kind"], case["arch"])
+        return acc
     check_case(acc, case["kind"], case["arch"], case["params"])
     return acc
